@@ -485,7 +485,7 @@ func (r *Renderer) Files() map[string]string {
 				continue
 			}
 			n++
-			f.p("var RefV%d = %s\n\n", ii, f.valueExpr(ii))
+			f.p("var ZzRefV%d = %s\n\n", ii, f.valueExpr(ii))
 		}
 		if n > 0 {
 			out[path(pi, "prov.go")] = f.String()
@@ -603,7 +603,7 @@ func (r *Renderer) renderProvider(f *gofile, ii int) {
 	var params []Param
 	var names []string
 	for i, p := range it.Params {
-		n := fmt.Sprintf("a%d", i)
+		n := fmt.Sprintf("zzA%d", i)
 		params = append(params, Param{Name: n, T: p})
 		names = append(names, n)
 	}
@@ -622,20 +622,20 @@ func (r *Renderer) renderProvider(f *gofile, ii int) {
 		return
 	}
 	tr := f.use(pkgTrace)
-	f.p("\tev := %s.Enter(%q%s)\n", tr, ItemID(ii), prefixEach(names))
-	f.p("\tif ev.Fail() {\n\t\tvar z %s\n\t\treturn z", f.ty(out))
+	f.p("\tzzEv := %s.Enter(%q%s)\n", tr, ItemID(ii), prefixEach(names))
+	f.p("\tif zzEv.Fail() {\n\t\tvar zzZ %s\n\t\treturn zzZ", f.ty(out))
 	if hasCl {
-		f.p(", ev.Bogus()")
+		f.p(", zzEv.Bogus()")
 	}
 	if hasErr {
-		f.p(", ev.Err()")
+		f.p(", zzEv.Err()")
 	}
 	f.p("\n\t}\n")
-	f.p("\ttok := ev.Tok()\n\t_ = tok\n")
-	f.p("\tvar r %s = %s\n", f.ty(out), f.mk(out, "tok", false, 0))
-	f.p("\tev.Ret(r)\n\treturn r")
+	f.p("\tzzTok := zzEv.Tok()\n\t_ = zzTok\n")
+	f.p("\tvar zzR %s = %s\n", f.ty(out), f.mk(out, "zzTok", false, 0))
+	f.p("\tzzEv.Ret(zzR)\n\treturn zzR")
 	if hasCl {
-		f.p(", ev.Cleanup()")
+		f.p(", zzEv.Cleanup()")
 	}
 	if hasErr {
 		f.p(", nil")
@@ -661,16 +661,16 @@ func (r *Renderer) renderDriver(home map[int]int) string {
 		in := &s.Injectors[ii]
 		f.p("var _ func%s = %s\n", sigString(f, in.Params, in.Variadic, r.M.InjResults(in), false), in.Name)
 	}
-	f.p("\n// Drive runs the plan.\nfunc Drive() {\n")
+	f.p("\n// ZzDrive runs the plan.\nfunc ZzDrive() {\n")
 	for _, ii := range sortedIntKeys(home) {
-		ref := fmt.Sprintf("RefV%d", ii)
+		ref := fmt.Sprintf("ZzRefV%d", ii)
 		if home[ii] != 0 {
 			ref = f.use(home[ii]) + "." + ref
 		}
 		f.p("\t%s.Ref(%q, %s)\n", tr, ItemID(ii), ref)
 	}
 	for ri := range s.Plan {
-		f.p("\trun%d()\n", ri)
+		f.p("\tzzRun%d()\n", ri)
 	}
 	f.p("}\n\n")
 	for ri, run := range s.Plan {
@@ -679,14 +679,14 @@ func (r *Renderer) renderDriver(home map[int]int) string {
 		if run.Fault >= 0 {
 			fault = ItemID(run.Fault)
 		}
-		f.p("func run%d() {\n", ri)
-		f.p("\tdefer func() {\n\t\tif r := recover(); r != nil {\n\t\t\t%s.Panicked(\"panic\")\n\t\t\t%s.End()\n\t\t}\n\t}()\n", tr, tr)
+		f.p("func zzRun%d() {\n", ri)
+		f.p("\tdefer func() {\n\t\tif zzRec := recover(); zzRec != nil {\n\t\t\t%s.Panicked(\"panic\")\n\t\t\t%s.End()\n\t\t}\n\t}()\n", tr, tr)
 		f.p("\t%s.Begin(%q, %q, %q)\n", tr, fmt.Sprintf("run%d", ri), in.Name, fault)
 		var args []string
 		for pi, p := range in.Params {
-			an := fmt.Sprintf("a%d", pi)
-			f.p("\ttk%d := %s.Tok()\n\t_ = tk%d\n", pi, tr, pi)
-			f.p("\tvar %s %s = %s\n", an, f.ty(p.T), f.mk(p.T, fmt.Sprintf("tk%d", pi), false, 0))
+			an := fmt.Sprintf("zzA%d", pi)
+			f.p("\tzzTk%d := %s.Tok()\n\t_ = zzTk%d\n", pi, tr, pi)
+			f.p("\tvar %s %s = %s\n", an, f.ty(p.T), f.mk(p.T, fmt.Sprintf("zzTk%d", pi), false, 0))
 			if in.Variadic && pi == len(in.Params)-1 {
 				args = append(args, an+"...")
 			} else {
@@ -695,7 +695,7 @@ func (r *Renderer) renderDriver(home map[int]int) string {
 		}
 		var plain []string
 		for pi := range in.Params {
-			plain = append(plain, fmt.Sprintf("a%d", pi))
+			plain = append(plain, fmt.Sprintf("zzA%d", pi))
 		}
 		f.p("\t%s.Args(%s)\n", tr, strings.Join(plain, ", "))
 		res := r.M.InjResults(in)
@@ -704,25 +704,25 @@ func (r *Renderer) renderDriver(home map[int]int) string {
 			f.p("\t%s.End()\n}\n\n", tr)
 			continue
 		}
-		lhs := []string{"r"}
+		lhs := []string{"zzR"}
 		if hasCl {
-			lhs = append(lhs, "cl")
+			lhs = append(lhs, "zzCl")
 		}
 		if hasErr {
-			lhs = append(lhs, "err")
+			lhs = append(lhs, "zzErr")
 		}
 		f.p("\t%s := %s(%s)\n", strings.Join(lhs, ", "), in.Name, strings.Join(args, ", "))
 		clExpr, errExpr := "false", "nil"
 		if hasCl {
-			clExpr = "cl != nil"
+			clExpr = "zzCl != nil"
 		}
 		if hasErr {
-			errExpr = "err"
+			errExpr = "zzErr"
 		}
-		f.p("\t%s.Result(r, %v, %s, %v, %s)\n", tr, hasCl, clExpr, hasErr, errExpr)
+		f.p("\t%s.Result(zzR, %v, %s, %v, %s)\n", tr, hasCl, clExpr, hasErr, errExpr)
 		f.p("\t%s.Mark(\"caller-cleanup\")\n", tr)
 		if hasCl {
-			f.p("\tif cl != nil {\n\t\tcl()\n\t}\n")
+			f.p("\tif zzCl != nil {\n\t\tzzCl()\n\t}\n")
 		}
 		f.p("\t%s.End()\n}\n\n", tr)
 	}
